@@ -3,7 +3,7 @@
 
 *)
 From Coq Require Import ZArith NArith List Bool Arith.
-From NSG Require Import Base.Prelude Model.Defender Model.Coord Proofs.CoordBase Proofs.CoordInv Proofs.CoordInvConn Proofs.CoordInvDispatch Proofs.CoordInvHandler Proofs.CoordProps Proofs.CoordDirect Proofs.CoordInv2 Proofs.CoordAgentStep Proofs.CoordBarrier.
+From NSG Require Import Base.Prelude Model.Defender Model.Coord Proofs.CoordBase Proofs.CoordInv Proofs.CoordInvConn Proofs.CoordInvDispatch Proofs.CoordInvHandler Proofs.CoordProps Proofs.CoordDirect Proofs.CoordInv2 Proofs.CoordAgentStep Proofs.CoordBarrier Proofs.CoordMeasure Proofs.CoordIsolation.
 Import ListNotations.
 
 (* the handlers waiting for the end of the episode are released only by the reward task, and it does nothing unless every agent in the game has finished *)
@@ -103,6 +103,17 @@ Theorem C06_start :
        @ev_start V W G s = true -> required cfg <= @length (addr * @agent V G) (@agents V W G s).
 Proof. exact (@started_enough_players). Qed.
 
+(* released waits are delivered: every run of task steps is bounded by the measure, and in the idle state that follows no released wait is left (C01_quiescent) *)
+Theorem C06_progress :
+  forall (V W G : Type) (wstep : W -> V -> G -> W * V) (wreset : W -> W) (winit : W -> role -> W * V)
+         (goal : role -> V -> bool) (detect : list G -> G -> bool) (cfg : config) 
+         (w : W) (ls0 ls : list (@label G)) (s s' : @state V W G),
+       @execs V W G wstep wreset winit goal detect cfg (@init_state V W G w) ls0 = @Some (@state V W G) s ->
+       (forall l : @label G, @In (@label G) l ls -> @internal G l) ->
+       @execs V W G wstep wreset winit goal detect cfg s ls = @Some (@state V W G) s' ->
+       @length (@label G) ls <= @mu V W G s.
+Proof. exact (@bounded_internal_runs_reachable). Qed.
+
 (* in every reachable state a handler held at the end-of-episode barrier belongs to an agent whose episode has ended, and the view it will report is exactly the stored one (final observations only are held back) *)
 Theorem C06_parked_final :
   forall (V W G : Type) (wstep : W -> V -> G -> W * V) (wreset : W -> W) (winit : W -> role -> W * V)
@@ -140,4 +151,5 @@ Print Assumptions C06_nonfinal.
 Print Assumptions C06_unmet.
 Print Assumptions C06_invariant.
 Print Assumptions C06_start.
+Print Assumptions C06_progress.
 Print Assumptions C06_parked_final.
